@@ -7,9 +7,10 @@ From DV Require Import Common.Res Common.Str Stack.Model.
 Import ListNotations.
 Local Open Scope nat_scope.
 
-(** (exception class, shape, dtype code of the returned array / image, pixdim[4] of a returned image,
-    phase code of its dim_info (0 unset, 1 'ROW', 2 other), file ids afterwards, dirty flag) *)
-Definition obs_item := (option err * option (list nat) * option nat * option Q * option nat * list nat * bool)%type.
+(** Only PUBLIC results are observed: (exception class or None, shape, dtype code of the returned array / image,
+    pixdim[4] of a returned image, phase code of its dim_info (0 unset, 1 'ROW', 2 other), and the order of
+    the files in the returned voxel array, read off the pixel values: slice-major, then time, then vector). *)
+Definition obs_item := (option err * option (list nat) * option nat * option Q * option nat * option (list nat))%type.
 
 Record case := mkcase {
   c_time : bool;
@@ -44,6 +45,13 @@ Definition phase_of_outcome (o : outcome) : option nat :=
   | _ => None
   end.
 
+Definition order_of_outcome (o : outcome) : option (list nat) :=
+  match o with
+  | OutData order _ _ => Some order
+  | OutNifti n => Some (o_order n)
+  | _ => None
+  end.
+
 Definition dtype_of_outcome (o : outcome) : option nat :=
   match o with
   | OutData _ _ d => Some d
@@ -51,13 +59,18 @@ Definition dtype_of_outcome (o : outcome) : option nat :=
   | _ => None
   end.
 
-(** [ord]: compare the order of the files as well.  After a TypeError raised inside [list.sort] Python
-    leaves the list in an unspecified (partially sorted) order, so from the first [EType] on only the
-    result classes, shapes and dirty flags are compared. *)
-Definition item_match (ord : bool) (m : res outcome * (list nat * bool)) (o : obs_item) : bool :=
-  let '(r, (mids, mdirty)) := m in
-  let '(oerr, oshape, odtype, opix, ophase, oids, odirty) := o in
-  (negb ord || nats_eqb mids oids) && Bool.eqb mdirty odirty &&
+(** exception classes are compared exactly where the API documents them (InvalidStackError,
+    IncongruentImageError, ImageCollisionError, NonImageDataSetError); where the model predicts the TypeError of
+    [list.sort] (None against a number) any exception of the implementation counts as the refusal *)
+Definition err_match (e e' : err) : bool :=
+  match e with
+  | EType => true
+  | _ => err_eqb e e'
+  end.
+
+Definition item_match (m : res outcome * (list nat * bool)) (o : obs_item) : bool :=
+  let '(r, _) := m in
+  let '(oerr, oshape, odtype, opix, ophase, oorder) := o in
   match r, oerr with
   | Ok out, None =>
       match oshape with
@@ -75,35 +88,31 @@ Definition item_match (ord : bool) (m : res outcome * (list nat * bool)) (o : ob
       match ophase with
       | None => true
       | Some c => match phase_of_outcome out with Some c' => Nat.eqb c c' | None => false end
+      end &&
+      match oorder with
+      | None => true
+      | Some l => match order_of_outcome out with Some l' => nats_eqb l l' | None => false end
       end
-  | Err e, Some e' => err_eqb e e'
+  | Err e, Some e' => err_match e e'
   | _, _ => false
   end.
 
-Definition is_etype (m : res outcome * (list nat * bool)) : bool :=
-  match fst m with Err EType => true | _ => false end.
-
-Fixpoint match_all (ord : bool) (a : list (res outcome * (list nat * bool))) (b : list obs_item) : bool :=
+Fixpoint match_all (a : list (res outcome * (list nat * bool))) (b : list obs_item) : bool :=
   match a, b with
   | [], [] => true
-  | x :: xs, y :: ys =>
-      let ord' := ord && negb (is_etype x) in
-      item_match ord' x y && match_all ord' xs ys
+  | x :: xs, y :: ys => item_match x y && match_all xs ys
   | _, _ => false
   end.
 
 Definition model_trace (c : case) := trace (init (c_time c) (c_vec c)) (c_ops c).
 
-Definition check (c : case) : bool := match_all true (model_trace c) (c_obs c).
+Definition check (c : case) : bool := match_all (model_trace c) (c_obs c).
 
 (** what the model computed, for replay files *)
 Definition show_item (m : res outcome * (list nat * bool)) :=
-  let '(r, s) := m in
-  (match r with
-   | Ok (OutShape sh) => (None, Some sh, None, None, None)
-   | Ok (OutData _ sh d) => (None, Some sh, Some d, None, None)
-   | Ok (OutNifti n) => (None, None, Some (o_dtype n), pixdim4_of_outcome (OutNifti n), phase_of_outcome (OutNifti n))
-   | Ok _ => (None, None, None, None, None)
-   | Err e => (Some e, None, None, None, None)
-   end, s).
+  match fst m with
+  | Ok out => (None, shape_of_outcome out, dtype_of_outcome out, pixdim4_of_outcome out, phase_of_outcome out,
+               order_of_outcome out)
+  | Err e => (Some e, None, None, None, None, None)
+  end.
 Definition show (c : case) := map show_item (model_trace c).
